@@ -16,7 +16,7 @@ def generate(G):
              domains="operands per leaf spec; seed elements %s" % seed)
 
     # ---- element-wise binary ops x broadcast class
-    pairs_q = {"Add": ([2, 2], [2]), "Sub": ([2], [2, 2]), "Mul": ([2, 2], [1, 2]), "Div": ([2, 2], [2, 1])}
+    pairs_q = {"Add": ([2, 2], [2]), "Sub": ([2], [1, 2]), "Mul": ([2, 2], [1, 2]), "Div": ([2], [2, 1])}
     for op, (a, b) in pairs_q.items():
         db = "Pos" if op == "Div" else "D4"
         ob("%s_%s_%s" % (op.lower(), G.sname(a), G.sname(b)), op, [L(a), L(b, db)], "quick", 12,
@@ -61,9 +61,9 @@ def generate(G):
     ob("relu_2x2", "Relu", [L([2, 2], "Sgn")], "thorough", 8)
     ob("sigmoid_2", "Sigmoid", [L([2], "D2")], "quick", 6, stubs=("exp",), inexact=True)
     ob("sigmoid_1x2", "Sigmoid", [L([1, 2])], "thorough", 6, stubs=("exp",), inexact=True)
-    ob("softmax_1x2", "Softmax", [L([1, 2], "D2")], "quick", 8, stubs=("exp", "powf"), inexact=True)
+    ob("softmax_1x2", "Softmax", [L([1, 2], "D2")], "thorough", 8, stubs=("exp", "powf"), inexact=True)
     ob("softmax_2x2", "Softmax", [L([2, 2], "D2")], "thorough", 10, stubs=("exp", "powf"), inexact=True)
-    ob("softmax_2", "Softmax", [L([2], "D2")], "thorough", 8, stubs=("exp", "powf"), inexact=True)
+    ob("softmax_2", "Softmax", [L([2], "D2")], "quick", 8, stubs=("exp", "powf"), inexact=True)
 
     # ---- sum(k), reshape
     for d, k, tier in [([2, 2], 1, "quick"), ([2, 2, 2], 2, "quick"), ([2, 1, 2], 3, "quick"), ([2, 2], 0, "thorough"),
@@ -102,7 +102,8 @@ def generate(G):
     mm("2x2x2_nt_c2x2", 2, 2, 2, False, True, [2, 2], "thorough")
     mm("2x2x2_nn_c1", 2, 2, 2, False, False, [1], "thorough")
     mm("1x2x2_nn_lead2_both", 1, 2, 2, False, False, None, "thorough", lead_a=[2], lead_b=[2])
-    mm("1x2x2_nt_lead2_left_c2", 1, 2, 2, False, True, [2], "quick", lead_a=[2])
+    mm("1x2x2_nt_lead2_left_c2", 1, 2, 2, False, True, [2], "thorough", lead_a=[2])
+    mm("1x1x2_nt_lead2_left_c2", 1, 1, 2, False, True, [2], "quick", lead_a=[2])
     mm("1x2x1_nn_lead2_right", 1, 2, 1, False, False, None, "thorough", lead_b=[2])
     mm("1x2x1_nn_lead1_2", 1, 2, 1, False, False, None, "thorough", lead_a=[1], lead_b=[2])
     mm("2x2x2_nt_c_only", 2, 2, 2, False, True, [2], "thorough", tracked=(False, False, True))
@@ -131,7 +132,7 @@ def generate(G):
                  "uneven": (img[-2] - fil[-2]) % stride[0] != 0 or (img[-1] - fil[-1]) % stride[1] != 0})
 
     conv("1x2x3_1x1x2x2_s11", [1, 2, 3], [1, 1, 2, 2], (1, 1), "quick")            # overlapping columns
-    conv("1x3x3_1x1x2x2_s11_img", [1, 3, 3], [1, 1, 2, 2], (1, 1), "quick", tracked=(True, False))
+    conv("1x3x3_1x1x2x2_s11_img", [1, 3, 3], [1, 1, 2, 2], (1, 1), "thorough", tracked=(True, False))
     conv("1x1x3_1x1x1x2_s11", [1, 1, 3], [1, 1, 1, 2], (1, 1), "quick", dom="D4")   # overlapping along columns only
     conv("1x3x1_1x1x2x1_s11", [1, 3, 1], [1, 1, 2, 1], (1, 1), "thorough", dom="D4")   # overlapping along rows only
     conv("1x3x4_1x1x2x2_s12", [1, 3, 4], [1, 1, 2, 2], (1, 2), "thorough")         # rows overlap, columns do not
